@@ -322,6 +322,19 @@ def real_part(rep):
                     'sleep 0.3; fi\n'
                     'if grep -q and "$1"; then exit 1; fi\nexit 0\n')
         os.chmod(sigcmd, 0o755)
+        atoms_in = os.path.join(d, 'atoms.smt2')
+        with open(atoms_in, 'w') as f:
+            f.write('; only atoms\ntrigger\nfoo bar\n"lit" |q s|\n')
+        empty_in = os.path.join(d, 'empty.smt2')
+        open(empty_in, 'w').close()
+        comments_in = os.path.join(d, 'comments.smt2')
+        with open(comments_in, 'w') as f:
+            f.write('; trigger one\n; two\n')
+        atomcmd = os.path.join(d, 'atomcmd.sh')
+        with open(atomcmd, 'w') as f:
+            f.write('#!/bin/sh\nif grep -q trigger "$1"; then exit 1; fi\n'
+                    'exit 0\n')
+        os.chmod(atomcmd, 0o755)
         out = os.path.join(d, 'out.smt2')
         launchers = [
             ('bin/ddsmt', [sys.executable,
@@ -350,6 +363,12 @@ def real_part(rep):
              False, True),
             ('match-out-present', ['--match-out', 'found', ok_in, out, cmd],
              True, False),
+            ('command-is-a-directory', [ok_in, out, d], False, True),
+            ('atoms-only-input', [atoms_in, out, atomcmd], True, False),
+            ('atoms-only-input-ddmin', ['--strategy', 'ddmin', atoms_in, out,
+                                        atomcmd], True, False),
+            ('empty-input', [empty_in, out, never], True, False),
+            ('comments-only-input', [comments_in, out, atomcmd], True, False),
         ]
         procs = []
         for lname, launcher in launchers:
